@@ -537,6 +537,14 @@ def v_eq(a, b):
         if isinstance(a, VRef):
             return a.e == 0
         return z3.BoolVal(False)
+    if isinstance(a, VOpt) and z3.is_false(a.isnone):
+        return v_eq(a.val, b)
+    if isinstance(b, VOpt) and z3.is_false(b.isnone):
+        return v_eq(a, b.val)
+    if isinstance(a, VOpt) and z3.is_true(a.isnone):
+        return v_eq(VNone(), b)
+    if isinstance(b, VOpt) and z3.is_true(b.isnone):
+        return v_eq(a, VNone())
     if isinstance(a, VOpt) and isinstance(b, VOpt):
         return z3.Or(z3.And(a.isnone, b.isnone), z3.And(z3.Not(a.isnone), z3.Not(b.isnone), v_eq(a.val, b.val)))
     if isinstance(a, VOpt):
